@@ -100,6 +100,32 @@ def logged_classes():
     return LogTarget, log_mass
 
 
+def momentum_law_defect(mass, d):
+    """None if the momentum refresh is Gibbs for the kinetic energy of the acceptance test, else (A A^T) M^-1"""
+    class UnitRng:
+        def __init__(self, k):
+            self.k = k
+
+        def normal(self, loc=0.0, scale=1.0, size=None):
+            z = numpy.zeros(size if size is not None else (d, 1))
+            z.reshape(-1)[self.k] = 1.0
+            return z
+    saved = getattr(mass, "rng", None)
+    cols, minv = [], []
+    try:
+        for k in range(d):
+            mass.rng = UnitRng(k)
+            cols.append(numpy.asarray(type(mass).__mro__[1].generate_momentum(mass), dtype=float).reshape(d))
+            e = numpy.zeros((d, 1))
+            e[k, 0] = 1.0
+            minv.append(numpy.asarray(type(mass).__mro__[1].kinetic_energy_gradient(mass, e), dtype=float).reshape(d))
+    finally:
+        mass.rng = saved
+    A, Minv = numpy.array(cols).T, numpy.array(minv).T
+    prod = (A @ A.T) @ Minv
+    return None if numpy.allclose(prod, numpy.eye(d), rtol=1e-9, atol=1e-9) else prod.round(6).tolist()
+
+
 def composition_case(rnd, wd, lits):
     import hmclab
     import hmclab.Samplers as S
@@ -131,13 +157,21 @@ def composition_case(rnd, wd, lits):
     smp = Snap(seed=1)
     smp.rng = rng
     if cfg["kind"] == "hmc":
-        mk = rnd.choice(["unit", "diagonal", "full"])
+        mk = rnd.choice(["unit", "diagonal", "full", "full_int"])
         if mk == "unit":
             mass = log_mass(M.Unit)(d)
         elif mk == "diagonal":
             mass = log_mass(M.Diagonal)(numpy.array([rnd.choice([0.5, 1.0, 2.0, 4.0]) for _ in range(d)]))
-        else:
+        elif mk == "full":
             mass = log_mass(M.Full)(numpy.eye(d) + 0.25 * numpy.ones((d, d)))
+        else:
+            mass = log_mass(M.Full)(2 * numpy.eye(d, dtype=int) + numpy.ones((d, d), dtype=int))      # whole numbers, integer dtype
+        # hypothesis of the stationarity theorem that this tie cannot see (the momenta enter the model as observed):
+        # the refresh draws A z must have covariance A A^T = M for the M of the kinetic energy used in the test
+        law = momentum_law_defect(mass, d)
+        if law is not None:
+            cfg["mass_kind"] = mk
+            return cfg, None, f"momentum law: {mk} mass matrix: generate_momentum() = A z with (A A^T) M^-1 = {law} instead of the identity (M^-1 from kinetic_energy_gradient)"
         mass._setup(glog)
         kw.update(stepsize=cfg["stepsize"], randomize_stepsize=cfg["randomize"], amount_of_steps=cfg["steps"], mass_matrix=mass, integrator=cfg["integrator"])
         cfg["mass_kind"] = mk
@@ -245,7 +279,7 @@ def moment_config(rnd, tier, force=None):
     kind = rnd.choice(["hmc", "hmc", "hmc", "rwmh"])
     cfg = {"target": tk, "kind": kind}
     if kind == "hmc":
-        masses = ["unit", "diagonal"] + ([] if tk == "truncated" else ["full"])
+        masses = ["unit", "diagonal"] + ([] if tk == "truncated" else ["full", "full_int"])
         cfg.update(mass=rnd.choice(masses), integrator=rnd.choice(["lf", "3s", "4s"]), randomize=rnd.random() < 0.5,
                    stepsize=rnd.choice([0.15, 0.3, 0.5]), steps=rnd.randint(2, 6))
     else:
@@ -284,7 +318,8 @@ def moment_test(rnd, tier, k, force=None):
     cfg["density_mismatch"] = worst
     if cfg["kind"] == "hmc":
         smp = S.HMC(seed=1)
-        mass = {"unit": lambda: M.Unit(d), "diagonal": lambda: M.Diagonal(numpy.array([0.6, 1.7])), "full": lambda: M.Full(numpy.array([[1.2, 0.3], [0.3, 0.9]]))}[cfg["mass"]]()
+        mass = {"unit": lambda: M.Unit(d), "diagonal": lambda: M.Diagonal(numpy.array([0.6, 1.7])), "full": lambda: M.Full(numpy.array([[1.2, 0.3], [0.3, 0.9]])),
+                "full_int": lambda: M.Full(numpy.array([[2, 1], [1, 3]]))}[cfg["mass"]]()      # whole numbers, integer dtype
         mass.rng = rng
         smp.mass_matrix, smp.stepsize, smp.amount_of_steps, smp.randomize_stepsize, smp.integrator = mass, cfg["stepsize"], cfg["steps"], cfg["randomize"], cfg["integrator"]
     else:
@@ -326,7 +361,7 @@ def run(tier, seed):
             if cfg["kind"] == "hmc":
                 dist["mass"][cfg["mass_kind"]] = dist["mass"].get(cfg["mass_kind"], 0) + 1
             if err:
-                violations.append(Violation("transition-raised", err, {"cfg": cfg}))
+                violations.append(Violation("momentum-law" if err.startswith("momentum law") else "transition-raised", err, {"cfg": cfg}))
                 continue
             coq.append(case)
             metas.append(cfg)
@@ -368,7 +403,10 @@ def run(tier, seed):
         violations.append(Violation("coq-error", "correspondence shard failed: " + log[-300:], {"log": log, "no_failing_input_found": True}))
     kinds = ["gaussian", "gaussian_full", "laplace", "mixture", "mixture_scalar", "truncated"]
     for k in range(6 if tier == "quick" else 60):
-        cfg, badm = moment_test(rnd, tier, k, force={"target": kinds[k % len(kinds)]})      # every target kind in every run
+        force = {"target": kinds[k % len(kinds)]}                                               # every target kind in every run
+        if k % len(kinds) in (0, 1):
+            force.update(kind="hmc", mass=["full_int", "full"][k % 2], integrator=rnd.choice(["lf", "3s", "4s"]), stepsize=0.3, steps=4, randomize=False)
+        cfg, badm = moment_test(rnd, tier, k, force=force)
         dist["moment_tests"] += 1
         dist["moment_chains"] += 1500 if tier == "quick" else 6000
         if badm:
